@@ -255,6 +255,6 @@ CHECKS["C09"] = dict(
     rule="one run = one seeded stream for one API (plus, in the truncation world, one decode per cut point). non-trivial = the stream has >= 2 values and one is a container; "
          "distinct = distinct hash of the encoded bytes",
     simtime_units="bytes written to the simulated storage",
-    probes=["empty_container", "nested_depth3", "non_trivial_element", "cut_inside_length_prefix_candidate", "len_65535", "payload_64k_or_more"],
+    probes=["empty_container", "nested_depth3", "non_trivial_element", "cut_inside_length_prefix_candidate", "len_65535", "payload_64k_or_more", "container_count_over_255"],
     assumptions=["strings and containers hold at most 65535 elements", "native endianness of this machine (the property says native-endian)"],
 )
